@@ -46,12 +46,14 @@ def findClazzChoice (U : Universe) (choices : List ChoiceVar) (c : ClassId) : Op
   | none => choices.find? (fun ch => isSubclass U c ch.cls)
 
 /-- the `xsi:type` attribute of a model value held by an element var / a choice whose
-declared type is `declared`: none for the exact type, otherwise
-`real_xsi_type(var.qname, meta.target_qname)` if truthy; written as `@<qname>` -/
+declared type is `declared`: none for the exact type; for a var without declared class
+`real_xsi_type(var.qname, meta.target_qname)` if truthy, for an instance of a subclass of the
+declared class `meta.target_qname` (kept even when the element is named like it: repair c01g-02);
+written as `@<qname>` -/
 def xsiAttr (declared : Option ClassId) (qname : Str) (c : ClassId) (m : Meta) : List Str :=
   if declared == some c then [] else
   match m.targetQName with
-  | some (t :: ts) => if (t :: ts) = qname then [] else ['@' :: t :: ts]
+  | some (t :: ts) => if declared.isNone && (t :: ts) = qname then [] else ['@' :: t :: ts]
   | _ => []
 
 /-- the serializer's walk, parametrised by how `build` is answered
@@ -78,7 +80,7 @@ def serWalk {σ} (U : Universe) (bld : σ → ClassId → Option Str → σ × E
           match bld s c f.ns with
           | (s', .error e) => (s', .error e)
           | (s', .ok m) =>
-            serWalk U bld rest s' (⟨m.vars, targetUri ch.qname⟩ :: f :: fs)
+            serWalk U bld rest s' (⟨m.vars, targetUri m.qname⟩ :: f :: fs)
               (out ++ [ch.qname] ++ xsiAttr (some ch.cls) ch.qname c m)
         | none =>
           -- no choice: meta = fetch(cls, namespace); convert_dataclass(value, qname=meta.target_qname)
@@ -89,13 +91,15 @@ def serWalk {σ} (U : Universe) (bld : σ → ClassId → Option Str → σ × E
             | (s2, .error e) => (s2, .error e)
             | (s2, .ok m2) =>
               let q := if truthy m1.targetQName then m1.targetQName.getD [] else m2.qname
-              serWalk U bld rest s2 (⟨m2.vars, targetUri q⟩ :: f :: fs) (out ++ [q])
+              serWalk U bld rest s2 (⟨m2.vars, targetUri m2.qname⟩ :: f :: fs) (out ++ [q])
       else
       -- convert_dataclass(value, namespace, var.qname)
       match bld s c f.ns with
       | (s', .error e) => (s', .error e)
       | (s', .ok m) =>
-        serWalk U bld rest s' (⟨m.vars, targetUri v.qname⟩ :: f :: fs)
+        -- the classes of the child values get `meta.namespace` of this class (repair c01g-01; before:
+        -- the namespace of the element name `v.qname`)
+        serWalk U bld rest s' (⟨m.vars, targetUri m.qname⟩ :: f :: fs)
           (out ++ wrapperStart v ++ [v.qname] ++ xsiAttr v.cls v.qname c m)
   | .leaf _ :: rest, s, [], out => serWalk U bld rest s [] out
   | .leaf i :: rest, s, f :: fs, out =>
